@@ -529,6 +529,7 @@ def run(ctx):
     loc_bound(ctx, "E7")
     overlap_window(ctx, "E7")
     _e8(ctx)
+    _e10(ctx)
 
 
 def _seq(node, env, lists):
@@ -688,3 +689,54 @@ def _axi_lite_port_address(ctx):
             ok = B.entails(G, B.A(want))
             ctx.ob("E9", AL, "axi_lite_to_simple", f"{a.v} used only when {want}", ok, "" if ok else f"under {B.show(G)}", a.line)
 
+
+
+def _e10(ctx):
+    """The CSR bus has no arbiter: csr_bus.InterconnectShared ORs adr / re / we / dat_w of every master (the SoC's bridge plus
+    whatever `csr.add_master` added).  The register a published address denotes is therefore reached only if every master that has no
+    access in hand contributes zeros -- or the interconnect masks the line by that master's own strobe."""
+    from ..rules_stream import fx_of, shared_bus_idle_zero
+    from .. import boolx as B
+    WB = "litex/soc/interconnect/wishbone.py"
+    ctx.rule("E10", "OR-combined CSR bus: every CSR master (Wishbone2CSR registered / combinational) drives adr, re, we, dat_w to zero "
+                    "while it has no access in hand -- no driver active in the idle state whatever the inputs are, clocked lines "
+                    "cleared on the way back to the idle state -- unless InterconnectShared gates the line by the master's own strobe",
+             min_sites=11)
+    fxi = fx_of(ctx, CSRBUS, "InterconnectShared")
+    fields = {}
+    for a in fxi.find(domain="comb"):
+        if a.t.startswith("intermediate.") and a.v.startswith("Reduce("):
+            fields[a.t.split(".", 1)[1]] = a
+    ok = set(fields) == {"adr", "re", "we", "dat_w"} and all(a.v.startswith("Reduce('OR'") for a in fields.values())
+    ctx.ob("E10", CSRBUS, "InterconnectShared", "adr, re, we, dat_w are the OR over all masters", ok, "" if ok else f"{sorted(fields)}",
+           next(iter(fields.values())).line if fields else 0)
+    discharged = set()
+    for f, a in fields.items():
+        call = a.value
+        elt = None
+        if isinstance(call, ast.Call) and len(call.args) == 2 and isinstance(call.args[1], ast.ListComp):
+            elt = call.args[1].elt
+        if elt is None:
+            continue
+        txt = norm(elt)
+        # a term masked by the same master's strobe: Mux(m.we, m.dat_w, 0) / m.dat_w & Replicate(m.we, n) / If-free forms are read by value
+        m = norm(call.args[1].generators[0].target) if isinstance(call.args[1].generators[0].target, ast.Name) else None
+        idx = f"masters[{m}]" if m and "range(len(masters))" in norm(call.args[1].generators[0].iter) else m
+        if idx and isinstance(elt, ast.Call) and norm(elt.func) == "Mux" and len(elt.args) == 3 and norm(elt.args[2]) == "0" and \
+                norm(elt.args[1]) == f"{idx}.{f}":
+            sel = B.from_expr(elt.args[0])
+            strobes = {"dat_w": [f"{idx}.we"], "adr": [f"{idx}.we", f"{idx}.re"]}.get(f, [])
+            if strobes and B.entails(sel, B.Or(*[B.A(x) for x in strobes])):
+                discharged.add("self.csr." + f)
+    fx = fx_of(ctx, WB, "Wishbone2CSR")
+    for info in fx.fsms.values():
+        reg = ("register", True) in info.pyguards
+        shared_bus_idle_zero(ctx, "E10", fx, "Wishbone2CSR", info, ["self.csr.adr", "self.csr.re", "self.csr.we", "self.csr.dat_w"],
+                             tag="registered: " if reg else "comb: ", discharged=discharged)
+    # AXILite2CSR reaches the CSR bus through axi_lite_to_simple
+    AL = "litex/soc/interconnect/axi/axi_lite.py"
+    fxa = fx_of(ctx, AL, func="axi_lite_to_simple")
+    ctx.need(len(fxa.fsms) == 1, "axi_lite_to_simple: expected one FSM")
+    for info in fxa.fsms.values():
+        shared_bus_idle_zero(ctx, "E10", fxa, "axi_lite_to_simple", info, ["port_adr", "port_re", "port_we", "port_dat_w"],
+                             tag="AXILite2CSR: ", discharged={x.replace("self.csr.", "port_") for x in discharged})
